@@ -22,10 +22,10 @@ TrRecvKnown == /\ IsEvent("recv") /\ Ev.decision = "known"
                /\ UNCHANGED vars
 TrRecvQueued == /\ IsEvent("recv") /\ Ev.decision = "queued"
                 /\ LET c == ToChange(Ev.c) IN
-                   /\ ~Suppressed(c) /\ ~Held(c)
+                   /\ ~Suppressed(c)
                    /\ (Len(queue) >= QLen) = (Ev.dropped.k # "none")
                    /\ (Ev.dropped.k # "none" => ToChange(Ev.dropped) = Head(queue))
-                   /\ Recv(c)
+                   /\ (IF Held(c) THEN RecvLate(c) ELSE Recv(c))
                    \* what the real cache still marks as seen of the dropped changeset, right after the eviction,
                    \* is what the specification's cache does
                    /\ (Ev.dropped.k = "full" =>
